@@ -29,6 +29,10 @@ func (c *c15Case) Key() string { return core.KeyOf(c) }
 var c15FilesList = []string{"page", "comp", "lay"}
 var c15Path = map[string]string{"page": "page.vuego", "comp": "comp.vuego", "lay": "layouts/lay.vuego"}
 
+// c15Step: by how much an edit moves a file's modification time: less than a second for the page
+// (a quick second save), hours for the component, one and a half seconds for the layout
+var c15Step = map[string]time.Duration{"page": 400 * time.Millisecond, "comp": time.Hour, "lay": 1500 * time.Millisecond}
+
 var c15Events = func() []string {
 	var ev []string
 	for _, f := range c15FilesList {
@@ -578,9 +582,9 @@ func (c *c15Case) Run(ctx *core.Ctx) {
 				w.nextVer++
 				switch kind {
 				case "edit+":
-					st.mtime = st.mtime.Add(time.Hour)
+					st.mtime = st.mtime.Add(c15Step[arg])
 				case "edit-":
-					st.mtime = st.mtime.Add(-time.Hour)
+					st.mtime = st.mtime.Add(-c15Step[arg])
 				case "edit0":
 					st.mtime = time.Time{}
 				}
@@ -625,7 +629,7 @@ func (c *c15Case) Run(ctx *core.Ctx) {
 				for _, f := range c15Involved(arg) {
 					st := w.files[f]
 					// (RenderFragment does not use the cache: it is always constrained)
-					if h, ok := w.held[eng][f]; ok && arg != "fragment" && st.exists && h.mtime == st.mtime.Unix() && h.id != st.id() {
+					if h, ok := w.held[eng][f]; ok && arg != "fragment" && st.exists && h.mtime == st.mtime.UnixNano() && h.id != st.id() {
 						unconstrained = true
 					}
 				}
@@ -644,8 +648,8 @@ func (c *c15Case) Run(ctx *core.Ctx) {
 					ok := func(f string) bool { return w.files[f].exists && !w.files[f].invalid }
 					upd := func(f string) {
 						st := w.files[f]
-						if h, has := w.held[eng][f]; !has || h.mtime != st.mtime.Unix() {
-							w.held[eng][f] = c15Held{st.mtime.Unix(), st.id()}
+						if h, has := w.held[eng][f]; !has || h.mtime != st.mtime.UnixNano() {
+							w.held[eng][f] = c15Held{st.mtime.UnixNano(), st.id()}
 						}
 					}
 					if ok("page") {
@@ -670,7 +674,7 @@ func (c *c15Case) Run(ctx *core.Ctx) {
 		key := ""
 		for _, f := range c15FilesList {
 			st := w.files[f]
-			key += fmt.Sprintf("%s:%s@%d|", f, st.id(), st.mtime.Unix()-baseTime.Unix())
+			key += fmt.Sprintf("%s:%s@%d|", f, st.id(), st.mtime.UnixNano()-baseTime.UnixNano())
 		}
 		key += fmt.Sprint(w.held)
 		if seenStates[key] {
